@@ -327,3 +327,44 @@ fn c16_rate_change_reaches_nested_tracks() {
 // (C07/C12: harnesses over a Track + TrackHandle built by the real TrackBuilder (pause / resume / resume_at / set_volume
 // before the first callback, drained twice) did not finish in 900 s even with a concrete command - TrackBuilder::build
 // creates a HashMap with a random hasher and five triple buffers - and were removed. Not decided.)
+
+// @h prop=C12,C07 tier=quick kind=main timeout=600
+// @bounds a childless track in ANY live state (Playing, Pausing, Paused, WaitingToResume, Resuming); in ONE callback interval its handle issued pause() and/or resume() / resume_at(delay) (any non-empty subset, symbolic); one Track::read_commands (the first step of on_start_processing)
+// @funcs Track::read_commands, Track::{pause,resume,update_shared_playback_state}, PlaybackStateManager::{pause,resume}
+// @catches a pause or resume of a TRACK being dropped or filtered on the way to its state machine (e.g. a resume ignored while the fade-out of a pause is still running, leaving the track frozen for good), the state mirrored to the handle lagging behind: the track's state machine must end where the sound state machine (decided in c03_psm.rs) ends for pause-then-resume
+#[kani::proof]
+#[kani::unwind(4)]
+fn c12_track_pause_and_resume_commands_reach_the_state_machine() {
+	let (sounds, sc) = ResourceStorage::new(0);
+	let (sub_tracks, tc) = ResourceStorage::new(0);
+	let (mut cw, command_readers) = command_writers_and_readers();
+	std::mem::forget(sc); std::mem::forget(tc);
+	let mut track = Track {
+		shared: Arc::new(TrackShared::new()), command_readers,
+		volume: Parameter::new(Value::Fixed(Decibels::IDENTITY), Decibels::IDENTITY),
+		sounds, sub_tracks, effects: vec![], sends: vec![], persist_until_sounds_finish: false, spatial_data: None,
+		playback_state_manager: PlaybackStateManager::new(None), temp_buffer: vec![Frame::ZERO; 1], internal_buffer_size: 1,
+	};
+	let sel: u8 = kani::any();
+	kani::assume(sel < 5);
+	let st = match sel { 0 => PlaybackState::Playing, 1 => PlaybackState::Pausing, 2 => PlaybackState::Paused, 3 => PlaybackState::WaitingToResume, _ => PlaybackState::Resuming };
+	let wait = StartTime::Delayed(std::time::Duration::from_secs(100));
+	track.playback_state_manager = PlaybackStateManager::kv_forced(st, wait);
+	let mut twin = PlaybackStateManager::kv_forced(st, wait);
+	let tw = Tween { start_time: StartTime::Immediate, duration: std::time::Duration::from_millis(250), easing: crate::Easing::Linear };
+	let with_pause: bool = kani::any();
+	let with_resume: u8 = kani::any();
+	kani::assume(with_resume < 3 && (with_pause || with_resume != 0));
+	if with_pause { cw.pause.write(tw); twin.pause(tw); }
+	if with_resume == 1 { cw.resume.write((StartTime::Immediate, tw)); twin.resume(StartTime::Immediate, tw); }
+	if with_resume == 2 { let d = StartTime::Delayed(std::time::Duration::from_secs(5)); cw.resume.write((d, tw)); twin.resume(d, tw); }
+	track.read_commands(); // the first thing Track::on_start_processing does (the whole of it, with its two resource storages, runs CBMC out of memory)
+	let want = twin.playback_state();
+	assert!(track.playback_state_manager.playback_state() == want, "the track's state machine took the commands, pause first, then resume");
+	let mirrored = track.shared.state();
+	let want_mirrored = match want { PlaybackState::Playing => TrackPlaybackState::Playing, PlaybackState::Pausing => TrackPlaybackState::Pausing, PlaybackState::Paused => TrackPlaybackState::Paused, PlaybackState::WaitingToResume => TrackPlaybackState::WaitingToResume, PlaybackState::Resuming => TrackPlaybackState::Resuming, _ => TrackPlaybackState::Paused };
+	assert!(mirrored == want_mirrored, "and the handle reports the new state");
+	kani::cover!(sel == 1 && !with_pause && with_resume == 1, "w:resume-during-the-fade-out");
+	kani::cover!(sel == 0 && with_pause && with_resume == 1, "w:pause-and-resume-in-one-interval");
+	std::mem::forget(track); std::mem::forget(cw); std::mem::forget(twin);
+}
